@@ -30,7 +30,7 @@ func init() { register(c13{}) }
 func (c13) ID() string    { return "C13" }
 func (c13) Level() string { return "fault_enumeration" }
 func (c13) Rule() string {
-	return "for bodies {empty, 1 B, 100 B text, 5 KiB text, 70 KiB incompressible, 200 KiB multi-block} written through the real cache.CreateLevel/Write/Close (chunked like the CLI's 4 KiB bufio writer): (1) control: the finished entry opens and reads back exactly the body; (2) every byte offset x {8 single-bit masks, 0x00, 0xFF, complement} of the finished file (all offsets for files <= 8 KiB and for the 60-byte header of every file, sampled offsets beyond: quick 300, thorough 20000 per file); (3) every truncation length (all for small files, all header lengths + sampled for big ones); (4) appended tails {1 B, 60 B, a whole second entry}; (5) the entry stored under the name of a different root/data digest and opened with the other key, and opened in place with a different rsum or dsum; (6) crash points through hook H1 on the real write path: after create, after the placeholder header, before every body write, after flate close, after the body hash, before the final header, tear:K for every K in 0..60, after the header - each followed by cache.Open; (7) the real CLI `gts clear|reverse|complement` SIGKILLed at every H1/H2 point of its own write path, and run under strace with ENOSPC/EIO injected into the N-th write(2) on the cache entry for every N; then the identical command run clean over the same cache directory must equal the uncached reference (and a faulted run that exits 0 must have printed the reference output); (8) whole entries through the CLI: a 2.6 MB three-record FASTA stream through gts reverse / gts complement -F fasta twice over one cache directory (the second run is a traced hit), and two different inputs on stdin with the same arguments, each twice, every run equal to its --no-cache reference. Oracle: Open err==nil => ReadAll == exactly the written body; every damaged state must fail to open. non-trivial: a fault was actually applied (state differs from the finished entry); distinct: (body, fault kind, parameter). (9) control cases over {GenBank record, 8-record stream, FASTA, small record, empty} x levels {Create default, 0, 1, 2, 5, 6, 9, Huffman-only} x {a hash per call, one hash with a lookup of another key between Create and Close, one hash with a second entry and a caller digest in between}; the write(2) error injection of (7) also on a 48-record stream (failures in the middle of the body). Both entries of (9) are opened before either is read; gts insert / gts search are run over one cache directory with two files under one name; every CLI crash point is also taken with SIGTERM and SIGINT (hook action term/int), followed by two clean reruns. After every in-process crash the File is dropped and a garbage collection forced before the entry is opened (an abandoned writer stays unfinished); a worker death whose report shows a panic or fatal error inside go-gts/gts is a violation even when the last case alone does not reproduce it. Entries written and read with MD5, SHA-256 and SHA-512; the corpus record and its CRLF twin through gts reverse over one cache directory."
+	return "for bodies {empty, 1 B, 100 B text, 5 KiB text, 70 KiB incompressible, 200 KiB multi-block} written through the real cache.CreateLevel/Write/Close (chunked like the CLI's 4 KiB bufio writer): (1) control: the finished entry opens and reads back exactly the body; (2) every byte offset x {8 single-bit masks, 0x00, 0xFF, complement} of the finished file (all offsets for files <= 8 KiB and for the 60-byte header of every file, sampled offsets beyond: quick 300, thorough 20000 per file); (3) every truncation length (all for small files, all header lengths + sampled for big ones); (4) appended tails {1 B, 60 B, a whole second entry}; (5) the entry stored under the name of a different root/data digest and opened with the other key, and opened in place with a different rsum or dsum; (6) crash points through hook H1 on the real write path: after create, after the placeholder header, before every body write, after flate close, after the body hash, before the final header, tear:K for every K in 0..60, after the header - each followed by cache.Open; (7) the real CLI `gts clear|reverse|complement` SIGKILLed at every H1/H2 point of its own write path, and run under strace with ENOSPC/EIO injected into the N-th write(2) on the cache entry for every N; then the identical command run clean over the same cache directory must equal the uncached reference (and a faulted run that exits 0 must have printed the reference output); (8) whole entries through the CLI: a 2.6 MB three-record FASTA stream through gts reverse / gts complement -F fasta twice over one cache directory (the second run is a traced hit), and two different inputs on stdin with the same arguments, each twice, every run equal to its --no-cache reference. Oracle: Open err==nil => ReadAll == exactly the written body; every damaged state must fail to open. non-trivial: a fault was actually applied (state differs from the finished entry); distinct: (body, fault kind, parameter). (9) control cases over {GenBank record, 8-record stream, FASTA, small record, empty} x levels {Create default, 0, 1, 2, 5, 6, 9, Huffman-only} x {a hash per call, one hash with a lookup of another key between Create and Close, one hash with a second entry and a caller digest in between}; the write(2) error injection of (7) also on a 48-record stream (failures in the middle of the body). Both entries of (9) are opened before either is read; gts insert / gts search are run over one cache directory with two files under one name; every CLI crash point is also taken with SIGTERM and SIGINT (hook action term/int), followed by two clean reruns. After every in-process crash the File is dropped and a garbage collection forced before the entry is opened (an abandoned writer stays unfinished); a worker death whose report shows a panic or fatal error inside go-gts/gts is a violation even when the last case alone does not reproduce it. Entries written and read with MD5, SHA-256 and SHA-512; the corpus record and its CRLF twin through gts reverse over one cache directory. One of the caller modes reads three bytes with Read and the rest with io.Copy."
 }
 func (c13) Assumptions() []string {
 	return []string{"crash = process death with the operating system surviving (bytes handed to write(2) persist, bytes buffered in the flate writer are lost); no fsync / power-loss model",
@@ -642,7 +642,19 @@ func (m c13) levelsAndCallers(c *fw.Ctx, x *c13ctx) {
 							return
 						}
 					}
-					got, oerr = io.ReadAll(g)
+					if mode == 1 && len(bd.data) > 3 {
+						// a consumer that looks at the first bytes, then copies the
+						// rest: together exactly the body.
+						head := make([]byte, 3)
+						if _, oerr = io.ReadFull(g, head); oerr != nil {
+							return
+						}
+						var rest bytes.Buffer
+						_, oerr = io.Copy(&rest, g)
+						got = append(head, rest.Bytes()...)
+					} else {
+						got, oerr = io.ReadAll(g)
+					}
 					g.Close()
 					if mode == 2 && oerr == nil {
 						got2, oerr = io.ReadAll(g2)
